@@ -40,7 +40,7 @@ type assocMsg struct {
 	extraTrip, extraVehicle, alertMention bool
 }
 
-var exprNames = []string{"TU", "VP", "TU+VP", "TU(assoc)+VP", "TU+VP(assoc)", "TU+VP(unassociated)"}
+var exprNames = []string{"TU", "VP", "TU+VP", "TU(assoc)+VP", "TU+VP(assoc)", "TU+VP(unassociated)", "TU+VP-in-one-entity"}
 var vdescNames = []string{"id", "label", "none", "empty", "empty-strings"}
 var tdescNames = []string{"tripid", "route+dir+start"}
 
@@ -59,10 +59,26 @@ func genAssocV(c *Ctx, nPairs int, withExtras bool, withConflicts bool, variant 
 	am := &assocMsg{}
 	var ents []*gtfsrt.FeedEntity
 	var key strings.Builder
+	// the trips of the pairs may share their trip_id and differ in the start date only
+	shareID := variant == 2 && c.Free("pairs_share_their_trip_id", 2) == 1
+	if shareID {
+		key.WriteString("sharedTripID ")
+	}
 	for i := 0; i < nPairs; i++ {
 		p := fmt.Sprintf("pair%d.", i+1)
-		ap := &assocPair{expr: c.Free(p+"expressed_by", 6), vdesc: c.Free(p+"vehicle_desc", 5), tdesc: c.Free(p+"trip_desc", 2)}
-		if ap.tdesc == 0 {
+		nExpr := 6
+		if variant == 1 {
+			nExpr = 7 // also: ONE entity carrying both a trip update (naming the vehicle) and a vehicle position
+		}
+		ap := &assocPair{expr: c.Free(p+"expressed_by", nExpr), vdesc: c.Free(p+"vehicle_desc", 5), tdesc: c.Free(p+"trip_desc", 2)}
+		bothKinds := false
+		if ap.expr == 6 {
+			ap.expr = 0
+			bothKinds = ap.vdesc <= 1 // the vehicle must be findable by its identifier
+		}
+		if ap.tdesc == 0 && shareID {
+			ap.td = &gtfsrt.TripDescriptor{TripId: sp("T"), RouteId: sp("R"), StartDate: sp(fmt.Sprintf("2024010%d", i+1))}
+		} else if ap.tdesc == 0 {
 			ap.td = &gtfsrt.TripDescriptor{TripId: sp(fmt.Sprintf("T%d", i+1)), RouteId: sp("R")}
 		} else {
 			ap.td = &gtfsrt.TripDescriptor{RouteId: sp("R"), DirectionId: cp(new(uint32)), StartTime: sp(fmt.Sprintf("0%d:00:00", i+1)), StartDate: sp("20240102")}
@@ -90,8 +106,21 @@ func genAssocV(c *Ctx, nPairs int, withExtras bool, withConflicts bool, variant 
 			tu := &gtfsrt.TripUpdate{Trip: cloneTD(ap.td), StopTimeUpdate: []*gtfsrt.TripUpdate_StopTimeUpdate{{StopId: sp(ap.tuStop)}}}
 			if ap.vd != nil && tuNamesVehicle {
 				tu.Vehicle = cloneVD(ap.vd)
+				if variant == 3 && ap.vdesc == 0 && ap.expr == 3 && c.Free(p+"trip_update_names_the_vehicle_by_id_only", 2) == 1 {
+					// {id} and {id, label} are different vehicle identifiers: two vehicles, in every entity order
+					// (only where the position entity does not name the trip: otherwise the trip would be claimed
+					// by two vehicles, which is a conflict)
+					tu.Vehicle = &gtfsrt.VehicleDescriptor{Id: ap.vd.Id}
+					key.WriteString("tuVehicleByIdOnly ")
+				}
 			}
 			e := &gtfsrt.FeedEntity{Id: sp(fmt.Sprintf("tu%d", i+1)), TripUpdate: tu}
+			if bothKinds {
+				// the same entity also carries a vehicle position of that vehicle (without a trip descriptor):
+				// the trip update in it associates trip and vehicle all the same
+				e.Vehicle = &gtfsrt.VehiclePosition{Vehicle: cloneVD(ap.vd), StopId: sp("BOTH")}
+				key.WriteString("bothKindsInOneEntity ")
+			}
 			if (variant == 1 || variant == 3) && c.Free(p+"trip_update_entity_is_deleted", 2) == 1 {
 				yes := true
 				e.IsDeleted = &yes // the library does not act on is_deleted: the entity counts like any other
@@ -155,6 +184,11 @@ func genAssocV(c *Ctx, nPairs int, withExtras bool, withConflicts bool, variant 
 			am.extraVehicle = true
 			ents = append(ents, &gtfsrt.FeedEntity{Id: sp("vp9"), Vehicle: &gtfsrt.VehiclePosition{Vehicle: &gtfsrt.VehicleDescriptor{Id: sp("A9")}, StopId: sp("VS9")}})
 			key.WriteString("extraVehicle ")
+		}
+		if c.Free("extra.trip_update_with_an_empty_trip_descriptor", 2) == 1 {
+			// a descriptor that is present but names nothing: whatever it yields, it associates nothing
+			ents = append(ents, &gtfsrt.FeedEntity{Id: sp("tu0"), TripUpdate: &gtfsrt.TripUpdate{Trip: &gtfsrt.TripDescriptor{}, StopTimeUpdate: []*gtfsrt.TripUpdate_StopTimeUpdate{{StopId: sp("TS0")}}}})
+			key.WriteString("emptyTripDescriptor ")
 		}
 		if c.Free("extra.alert_names_two_new_trips", 2) == 1 {
 			ents = append(ents, &gtfsrt.FeedEntity{Id: sp("alert2"), Alert: &gtfsrt.Alert{InformedEntity: []*gtfsrt.EntitySelector{
@@ -373,7 +407,7 @@ func init() {
 	register(&Check{
 		ID:    "C04",
 		Level: "model_checking",
-		Rule: "full product: 2 pairs optionally with an alert naming the trips of both; 1 pair whose trip descriptor carries every schedule relationship, whose vehicle position carries 4 sets of optional fields (current_stop_sequence without current_status, ...) and whose entities may be flagged is_deleted (unset, SCHEDULED, ADDED, UNSCHEDULED, CANCELED, REPLACEMENT, DUPLICATED, DELETED); 1 pair (+ optional unrelated trip, unrelated vehicle, alert mentioning the trip, alert naming two new trips), each optionally preceded in the same process by the parse of a conflicting message about the same ids and 2 pairs; association expressed by {TU, VP, both} x vehicle descriptor {id, label only, none, present but empty} x trip descriptor {trip id, route+direction+start}; all n! entity orders (n<=5); all map rotations at every library range; thorough adds 2 pairs with extras; " +
+		Rule: "full product: 2 pairs optionally with an alert naming the trips of both, optionally sharing one trip_id (start dates differ); 1 pair whose trip descriptor carries every schedule relationship, which may be expressed by ONE entity carrying both kinds, whose vehicle position carries 4 sets of optional fields (current_stop_sequence without current_status, ...) and whose entities may be flagged is_deleted (unset, SCHEDULED, ADDED, UNSCHEDULED, CANCELED, REPLACEMENT, DUPLICATED, DELETED); 1 pair (+ optional unrelated trip, unrelated vehicle, alert mentioning the trip, alert naming two new trips), each optionally preceded in the same process by the parse of a conflicting message about the same ids and 2 pairs; association expressed by {TU, VP, both} x vehicle descriptor {id, label only, none, present but empty} x trip descriptor {trip id, route+direction+start}; all n! entity orders (n<=5); all map rotations at every library range; thorough adds 2 pairs with extras; " +
 			"non-trivial = every distinct message; oracle = link invariants on the real result",
 		Assumptions: []string{"entries are located by identifier, id-less vehicles by the stop id of their position entity"},
 		Scenarios: func(tier string) []*Scenario {
